@@ -1,4 +1,5 @@
 //! Property checks for ajtribick/twofloat (property-based testing with an exact oracle).
+pub mod api;
 pub mod common;
 pub mod engine;
 pub mod fcommon;
@@ -11,6 +12,7 @@ pub mod p_explog;
 pub mod p_forms;
 pub mod p_pow;
 pub mod p_round;
+pub mod p_sweep;
 pub mod p_text;
 pub mod p_trig;
 pub mod selftest;
@@ -18,5 +20,5 @@ pub mod selftest;
 use engine::Property;
 
 pub fn all_properties() -> Vec<Property> {
-    vec![p_arith::c02(), p_arith::c03(), p_arith::c04(), p_arith::c05(), p_base::c06(), p_base::c07(), p_round::c08(), p_conv::c09(), p_forms::c10(), p_base::c12(), p_pow::c13(), p_explog::c14(), p_explog::c15(), p_trig::c16(), p_trig::c17(), p_trig::c18(), p_arith::c19(), p_text::c20()]
+    vec![p_sweep::c01(), p_arith::c02(), p_arith::c03(), p_arith::c04(), p_arith::c05(), p_base::c06(), p_base::c07(), p_round::c08(), p_conv::c09(), p_forms::c10(), p_sweep::c11(), p_base::c12(), p_pow::c13(), p_explog::c14(), p_explog::c15(), p_trig::c16(), p_trig::c17(), p_trig::c18(), p_arith::c19(), p_text::c20()]
 }
